@@ -44,6 +44,11 @@ def rule_accounting(ctx: Ctx) -> None:
         for e in augs:
             by.setdefault(strip_v(e.recv), []).append(e)
         thr_none = fact_where(bp, lambda k: k.startswith("none:get_label_threshold("))
+        thr_truthy = fact_where(bp, lambda k: k.startswith(("truthy:get_label_threshold(", "call:get_label_threshold(")))
+        if thr_none is None and thr_truthy is not None:
+            ctx.violate("C05-accounting", "_calculate_tp_fp", "threshold-tested-by-truthiness", "the per-label threshold is tested by truthiness: a threshold of exactly 0 (the loosest IoU threshold, the strictest distance) "
+                        "is treated as `no threshold for this label` and the result is skipped; the test must be `is None`", fi=fi, expected="matching_threshold_ is None", found="not matching_threshold_")
+            continue
         cur_tp = fact_where(bp, lambda k: k.startswith(f"call:{cur}.is_result_correct("))
         switched = [k for k, v in bp.facts.items() if v and strip_v(k).startswith("call:self._is_id_switched(")]
         same = [k for k, v in bp.facts.items() if v and strip_v(k).startswith("call:self._is_same_match(")]
